@@ -23,4 +23,4 @@ Extraction "model.ml"
   Msgid.next_msgid Conn.step Conn.init Conn.repaired Conn.as_is Conn.quiescent Conn.clean Conn.op_finished
   Stream.start Stream.search StreamSpec.model_step StreamSpec.run
   ConnWire.receive_buf Paged.start Paged.next Paged.drain Paged.take_items Paged.eo_drain Paged.finish Paged.cancelled Paged.prepaired
-  Setup.plan_of Setup.repaired18 Setup.cert_names_match Tls.establish.
+  Setup.plan_of Setup.plan_of_auth Setup.repaired18 Setup.cert_names_match Tls.establish.
